@@ -22,7 +22,7 @@ sys.path.insert(0, str(core.ROOT / 'tools'))
 
 PROP = 'C08'
 MODEL_MODULES = ['TenpyModel.Util.J', 'TenpyModel.MPS.Eval']
-PROPS_MODULES = ['TenpyModel.C08.Props']
+PROPS_MODULES = ['TenpyModel.C08.Props', 'TenpyModel.C08.PropsMPS']
 LEVEL = 'proof'
 BUDGET = {'quick': 200, 'thorough': 1500}
 RULE = ('kets and bras from from_full / random block-sparse tensors + canonical_form / from_singlets / product states '
@@ -146,6 +146,8 @@ def gen_cases(rng, n, quick):
             ket['p_modes'] = ['label' if rng.random() < 0.7 else 'int' for _ in ket['p_modes']]
             if len(ket['p_modes']) < 2:
                 continue
+        if int(np.prod([mc.site_dim(k) for k, _ in ket['sites']['kinds']])) > (128 if quick else 512):
+            continue   # dense operators are D x D
         # bra: same sites, other random state
         bra = dict(kind='full', seed=rng.getrandbits(31), complex=ket['complex'], sites=ket['sites'],
                    form=rng.choice([None, 'B']), normalize=rng.random() < 0.5, density=1.0)
